@@ -75,6 +75,10 @@ def generate(R, tier, focus):
     }
     if cfg['source'] == 'list':
         cfg['n_cat_given'] = True
+        # in-memory catalogs are user objects: they may carry their own `filters` attribute or their own region
+        cfg['cat_filters_attr'] = R.random() < 0.3
+        cfg['list_region'] = R.choice((False, True, True, 'other'))
+    cfg['low_mag_unfiltered'] = False
     if cfg['apply_filters']:
         kinds = [k for k in ('mag', 'time') if R.random() < 0.6]
         min_mw = mags['edges'][0]
@@ -84,7 +88,7 @@ def generate(R, tier, focus):
             else:
                 cfg['filters'].append('origin_time >= %d' % start_ms)
                 cfg['filters'].append('origin_time < %d' % end_ms)
-        if not quad and R.random() < 0.5:
+        if not quad and (R.random() < 0.5 or cfg.get('list_region') == 'other'):
             cfg['filter_spatial'] = True
         R.shuffle(cfg['filters'])
         # outsiders, only where the matching filter removes them again
@@ -110,7 +114,25 @@ def generate(R, tier, focus):
                     ev, _, _ = gen.gen_event(R, region, mags, eid='c%dout' % cid, start_ms=start_ms, end_ms=end_ms)
                     ev[3], ev[2] = p
                     extra.append(ev)
+            if cfg.get('list_region') == 'other' and cfg['filter_spatial']:
+                # inside the catalogs' own (larger) region, outside the forecast region
+                extra_cells = [c for c in big_region(region)['origins'] if c not in region['origins']]
+                if extra_cells:
+                    o = R.choice(extra_cells)
+                    ev, _, _ = gen.gen_event(R, region, mags, eid='c%dbig' % cid, start_ms=start_ms, end_ms=end_ms)
+                    ev[3], ev[2] = gen.dec(o[0] + region['dh'] * 0.5, 8), gen.dec(o[1] + region['dh'] * 0.5, 8)
+                    extra.append(ev)
             for ev in extra:
+                cats[cid].insert(R.randint(0, len(cats[cid])), ev)
+    if cfg.get('list_region') == 'other' and (quad or not cfg['filter_spatial']):
+        cfg['list_region'] = True
+    if not cfg['apply_filters'] and R.random() < 0.12:
+        # events below the first magnitude bin and no magnitude filter: legal as long as nothing is gridded
+        cfg['low_mag_unfiltered'] = True
+        for cid in range(J):
+            if R.random() < 0.6:
+                ev, _, _ = gen.gen_event(R, region, mags, eid='c%dlow' % cid, start_ms=start_ms, end_ms=end_ms)
+                ev[5] = gen.dec(mags['edges'][0] - mags['dm'] * R.choice((0.25, 0.5, 2.0)), 6)
                 cats[cid].insert(R.randint(0, len(cats[cid])), ev)
     # observed catalogs
     obs = []
@@ -133,6 +155,10 @@ def generate(R, tier, focus):
     # ops
     n_ops = R.randint(1, 10) if not thorough else R.randint(1, 24)
     testable = [t for t in TESTS if len(mags['edges']) >= 2 or t in TESTS[:4]]
+    plain_ops = PLAIN_OPS
+    if cfg['low_mag_unfiltered']:
+        testable = ['number']
+        plain_ops = ('ITER', 'COUNTS', 'NCAT')
     if not any(model_filter(cats, cfg, region)):
         # N_U = 0: the resampling tests are undefined (documented precondition)
         testable = [t for t in testable if t in TESTS[:4]]
@@ -146,13 +172,29 @@ def generate(R, tier, focus):
         elif focus in ('C10', 'C18') and R.random() < 0.15:
             ops.append({'op': 'CALIBRATION', 'delta_1': R.random() < 0.5})
         else:
-            ops.append({'op': R.choice(PLAIN_OPS)})
+            ops.append({'op': R.choice(plain_ops)})
+    prelude = None
+    if cfg['source'] == 'file' and R.random() < 0.3:
+        # an earlier forecast that lived at the same path (other content): process-level caches keyed by path
+        pj = R.randint(1, 6)
+        prelude = {'cats': [_gen_catalog_events(R, region, mags, cid, R.randint(0, 4), start_ms, end_ms) for cid in range(pj)]}
     probe = None
     if R.random() < 0.15:
         probe = {'kind': R.choice(('break', 'loader_ioerror')), 'at': R.randint(0, max(0, J - 1))}
     return {'engine': 'fcsim', 'region': region, 'mags': mags, 'cats': cats, 'config': cfg,
-            'start_ms': start_ms, 'end_ms': end_ms, 'obs': obs, 'ops': ops, 'probe': probe,
+            'start_ms': start_ms, 'end_ms': end_ms, 'obs': obs, 'ops': ops, 'probe': probe, 'prelude': prelude,
             'tz': R.choice(TZ_CHOICES), 'clock_us': R.randint(0, 4 * 10 ** 15)}
+
+
+def big_region(region):
+    """the full rectangle of the lattice's bounding box, extended by one column to the left and one row below"""
+    dh = region['dh']
+    b = region['bbox']
+    nx = int(round((b[2] - b[0]) / dh)) + 1
+    ny = int(round((b[3] - b[1]) / dh)) + 1
+    x0, y0 = gen.dec(b[0] - dh), gen.dec(b[1] - dh)
+    return {'kind': 'cart', 'dh': dh, 'holes': [], 'bbox': [x0, y0, b[2], b[3]],
+            'origins': [[gen.dec(x0 + i * dh), gen.dec(y0 + j * dh)] for i in range(nx) for j in range(ny)]}
 
 
 def _keeps(ev, cfg, start_ms, end_ms, mags):
@@ -274,7 +316,29 @@ class FcWorld:
         self.path = None
         if self.cfg['source'] == 'file':
             self.path = store.path('%s_2010-01-01T00-00-00-000000.csv' % fname)
+            if scn.get('prelude') and fname == 'simfc':
+                self.run_prelude(scn['prelude'])
             build.write_forecast_csv(self.path, scn['cats'], self.cfg['encoding'])
+
+    def run_prelude(self, prelude):
+        """another forecast used earlier at the same path; whatever it leaves behind in the process must not matter"""
+        from csep.core import catalog_evaluations as ce
+        build.write_forecast_csv(self.path, prelude['cats'], self.cfg['encoding'])
+        saved = self.scn
+        for first in ('counts', 'iterate', 'rates'):
+            try:
+                fc = self.new_forecast()
+                if first == 'counts':
+                    fc.get_event_counts(verbose=False)
+                elif first == 'rates':
+                    fc.get_expected_rates(verbose=False)
+                for _ in fc:
+                    pass
+                fc.get_event_counts(verbose=False)
+                fc.get_expected_rates(verbose=False)
+                ce.number_test(fc, build.make_catalog([], region=fc.region, name='obs'), verbose=False)
+            except Exception:
+                pass
 
     def region(self):
         return build.make_region(self.scn['region'], self.scn['mags'])
@@ -295,8 +359,12 @@ class FcWorld:
             if cfg['filters_where'] == 'ctor':
                 kw['filters'] = list(cfg['filters'])
         if cfg['source'] == 'list':
-            cats = [build.make_catalog(evs, region=region if cfg['list_region'] else None, catalog_id=i,
-                                       name='simfc')
+            lr = cfg.get('list_region')
+            creg = None if not lr else (region if lr is True else build.make_region(big_region(scn['region']), scn['mags']))
+            ckw = {}
+            if cfg.get('cat_filters_attr') and use_filters and cfg['filters']:
+                ckw['filters'] = list(cfg['filters'])
+            cats = [build.make_catalog(evs, region=creg, catalog_id=i, name='simfc', **ckw)
                     for i, evs in enumerate(scn['cats'])]
             fc = CatalogForecast(catalogs=cats, n_cat=self.J if cfg['n_cat_given'] else None, **kw)
         else:
@@ -495,7 +563,12 @@ def _execute(scn, ctx, store, rng, clock, collect_results):
     kept_cats = model_filter(scn['cats'], cfg, scn['region'])
     model = None
     if ctx.wants('C10') or ctx.wants('C20'):
-        model = models.CatalogForecastModel([grid_counts(evs, scn['region'], scn['mags']) for evs in kept_cats])
+        if cfg.get('low_mag_unfiltered'):
+            # nothing can be gridded in this configuration; only the number test is defined (sizes, no bins)
+            model = models.CatalogForecastModel([[[float(len(evs))]] for evs in kept_cats])
+            model.sizes_only = True
+        else:
+            model = models.CatalogForecastModel([grid_counts(evs, scn['region'], scn['mags']) for evs in kept_cats])
 
     # ---- subject and its history ---------------------------------------------------------------
     stats = {'opened': 0, 'yielded': 0, 'completed': 0}
@@ -565,8 +638,9 @@ def _execute(scn, ctx, store, rng, clock, collect_results):
                 r = call(fc.magnitude_counts)
             if r[0] != 'ok':
                 if lib_rates is None:
+                    # gridding is impossible for this configuration (twin fails too); the aborted pass ends the history
                     ctx.count('rates_exception_also_on_twin')
-                    continue
+                    return
                 ctx.violate('C13', 'exception', kind + ':' + r[1], {'op': oi, 'msg': r[2]})
                 return
             val = r[1]
@@ -775,7 +849,12 @@ def _hist_of_resample(values, mags):
 
 def check_c10(ctx, scn, model, name, op, vs, calls, oi):
     """Library result vs the documented statistic on the literal catalogs + recorded draws."""
-    obs_counts = grid_counts(scn['obs'][op['obs']]['events'], scn['region'], scn['mags'])
+    if getattr(model, 'sizes_only', False):
+        if name != 'number':
+            return
+        obs_counts = numpy.array([[float(len(scn['obs'][op['obs']]['events']))]])
+    else:
+        obs_counts = grid_counts(scn['obs'][op['obs']]['events'], scn['region'], scn['mags'])
     n_obs = float(obs_counts.sum())
     if model.n_union == 0:
         ctx.count('precond:NU0')
